@@ -1,0 +1,13 @@
+//go:build verif
+// +build verif
+
+package transport
+
+import "sync/atomic"
+
+// Verification hook (build tag verif only): the first statement of TarsServer.Shutdown on its own. It lets a
+// harness script the schedule in which Shutdown is preempted right after storing isClosed — a connection accepted
+// in that window is the last one the accept loop takes — and then call the real Shutdown. Nothing else changes.
+func VerifC12StoreClosed(ts *TarsServer) {
+	atomic.StoreInt32(&ts.isClosed, 1)
+}
